@@ -137,6 +137,30 @@ PROPS['C05'] = {
     'level_note': W_NOTE, 'technique': W_TECH,
 }
 
+HS_RULE = ('seeded scenarios {plain, nil-spec, spec-driven client} x {Retry, none} x {version negotiation, none} x {fresh, resumed + early data accepted, 0-RTT rejected} x chain length, '
+           'with per-datagram fault schedules over the handshake, attacker injections (forged Version Negotiation, Retry with invalid tag, Initial with CONNECTION_CLOSE / bogus ACK sealed with the public Initial keys, '
+           'replayed and garbage datagrams) at seeded instants, and token scenarios (valid / rebound address / expired / truncated / bit-flipped / foreign key / aged by hours to days of simulated time); '
+           'plus a bounded sweep of all single faults and pairs over the first handshake datagrams of four base scenarios; non-trivial = a fault or injection fired; distinct = distinct abstract wire traces')
+PROPS['C13'] = {
+    'level': 'fault_enumeration', 'budget': {'quick': 75, 'thorough': 1500},
+    'parts': [{'sim': 'hs', 'share': 3, 'env': {'VERIF_ORACLES': 'C13'}}, {'sim': 'hs', 'mode': 'sweep', 'share': 1, 'env': {'VERIF_ORACLES': 'C13'}}],
+    'rule': HS_RULE, 'real_vs_stub': 'real: client and server transports, listeners, TLS (uTLS) incl. session tickets; stub: network, attacker (simulator), clock',
+    'assumptions': ['an on-path attacker may legitimately end a handshake with a forged Version Negotiation before the client processed a server packet, and with forged Initial packets while the victim still holds Initial keys; later or other injections must not change the outcome',
+                    '0-RTT packet payloads are not observable on the wire; the 0-RTT clauses are decided at the API'],
+    'level_text': 'bounded sweep of single and paired faults over the handshake datagrams plus seeded search over fault schedules and attacker injections; convergence, bounded Dial/Accept, authenticated connection IDs read off the wire, 0-RTT exactly-once',
+    'level_note': W_NOTE, 'technique': W_TECH,
+}
+PROPS['C14'] = {
+    'level': 'exploration', 'budget': {'quick': 75, 'thorough': 1500},
+    'parts': [{'sim': 'hs', 'share': 3, 'env': {'VERIF_ORACLES': 'C14'}}, {'sim': 'sph', 'share': 1}],
+    'rule': HS_RULE + '; the router counts, per client address and at every prefix of the history, bytes delivered to the server (including duplicates and injected datagrams) against bytes the server sends before the address is validated; '
+            'K:sph adds the component clause that the send mode is None while unvalidated and 3x the received bytes were sent',
+    'real_vs_stub': 'real: server transport, token generator, address validation; stub: network, clock',
+    'assumptions': ['bytes of every datagram delivered to the server are counted as received (upper bound of what the server may count)'],
+    'level_text': 'seeded search over arrival/loss patterns and token mutations on whole connections with amplification accounting at the router and AddrVerified observed through GetConfigForClient',
+    'level_note': W_NOTE, 'technique': W_TECH,
+}
+
 NOT_APPLICABLE = {
     'C08': 'pure functions of a byte string / value (quantifier: inputs only): no schedule, clock, fault or interleaving for a simulator to control; deciding it is input generation (fuzzing), a different technique - DESIGN.md section 5',
     'C19': 'predicate over field lists and http.Header values (quantifier: inputs only): no schedule, clock, fault or interleaving - DESIGN.md section 5',
